@@ -43,6 +43,20 @@ donef = OUT + "/eval-%d.jsonl" % slot
 done = set()
 for f in glob.glob(OUT + "/eval-*.jsonl"):
     done |= {json.loads(l)["id"] for l in open(f)}
+PASS2 = os.environ.get("MUT_PASS2") == "1"      # second pass: the undetected ones against every other check
+first = {}
+if PASS2:
+    for f in glob.glob(OUT + "/eval-*.jsonl"):
+        for l in open(f):
+            r = json.loads(l)
+            if r.get("verdict") == "undetected":
+                first[r["id"]] = [c for c, _ in r["runs"]]
+    want = set(first)
+    done = set()
+    for f in glob.glob(OUT + "/eval2-*.jsonl"):
+        done |= {json.loads(l)["id"] for l in open(f)}
+    donef = OUT + "/eval2-%d.jsonl" % slot
+ALL = ["C01", "C03", "C04", "C05", "C06", "C07", "C08", "C09", "C10", "C11", "C12", "C13", "C14", "C15", "C16", "C17", "C18", "C19", "C20", "C02"]
 env = dict(os.environ, VERIF_REPO=WT, VERIF_SEED=os.environ.get("VERIF_SEED", "20260930"))
 k = -1
 for m in surv:
@@ -57,7 +71,11 @@ for m in surv:
         res = {"id": m["id"], "verdict": "patch-failed"}
     else:
         res = {"id": m["id"], "file": m["file"], "line": m["line"], "op": m["op"], "old": m["old"].strip(), "new": m["new"].strip(), "verdict": "undetected", "runs": []}
-        for c in CHECKS[os.path.basename(m["file"])]:
+        todo = CHECKS[os.path.basename(m["file"])]
+        if PASS2:
+            helper_side = m["file"].startswith("client/")
+            todo = [c for c in ALL if c not in first[m["id"]] and (helper_side or c not in ("C01", "C17", "C19", "C20"))]
+        for c in todo:
             try:
                 q = subprocess.run([sys.executable, VM + "/verif.py", "check", c, "--tier", "quick"], cwd=VM, env=env, capture_output=True, text=True, timeout=2400)
                 lines = [l for l in q.stdout.splitlines() if re.match(r"^(VIOLATION|OK|BUILD|HARNESS|Traceback)", l)]
